@@ -292,8 +292,46 @@ func TestVerifC11(t *testing.T) {
 			}
 		}
 	}
+	// T5: dependency chains that need several merge-scope / relocate passes: every ordered pair and triple of blocks
+	blocks := func() []*vfN {
+		nm := func(n string) *vfN { return &vfN{K: "Name", Name: n, C: []*vfN{vfI(7)}} }
+		return []*vfN{
+			{K: "Scope", Name: "\\_SB_", C: []*vfN{{K: "Device", Name: "^DEVA"}}},
+			{K: "Scope", Name: "\\_GPE", C: []*vfN{{K: "Device", Name: "\\DEVA.DEVX"}}},
+			{K: "Scope", Name: "\\DEVA", C: []*vfN{{K: "Scope", Name: "DEVX", C: []*vfN{nm("YYYY")}}}},
+			{K: "Scope", Name: "\\DEVA", C: []*vfN{nm("ZZZZ")}},
+			{K: "Scope", Name: "\\_SB_", C: []*vfN{{K: "Device", Name: "\\DEVA.DEVX"}, {K: "Device", Name: "^DEVA"}}},
+			{K: "Device", Name: "\\DEVA"},
+			// (a '^' declaration inside a forward Scope(\\DEVA) nested in another Scope is left out: on the real tree it is an
+			// instance of K2, and the kept candidate repair does not cover that nesting - see DESIGN.md 8.3)
+			{K: "Scope", Name: "\\_TZ_", C: []*vfN{{K: "ThermalZone", Name: "\\_SB_.TZ00"}, {K: "Scope", Name: "\\_SB_", C: []*vfN{{K: "Scope", Name: "TZ00", C: []*vfN{nm("TMP0")}}}}}},
+		}
+	}
+	nb := len(blocks())
+	for i := 0; i < nb; i++ {
+		if !mine() {
+			continue
+		}
+		for j := 0; j < nb; j++ {
+			if j == i {
+				continue
+			}
+			b := blocks()
+			c.check([][]*vfN{{b[i], b[j]}}, 0)
+			for k := 0; k < nb; k++ {
+				if k == i || k == j {
+					continue
+				}
+				b := blocks()
+				c.check([][]*vfN{{b[i], b[j], b[k]}}, 0)
+				// the same chain split over two tables
+				b = blocks()
+				c.check([][]*vfN{{b[i], b[j]}, {b[k]}}, 0)
+			}
+		}
+	}
 	run.Count("rejected_by_reference_as_ill_formed", c.skipped)
-	run.Finish(true, fmt.Sprintf("T1: 20 constructs x 7 name forms x 13 containers x PkgLength encodings %v; T2: 41 call/field/operator/module-level programs x 13 containers, every ordered pair of constructs x 13 containers; T3: constructs x name forms x 8x8 nested containers; T4: 5 first tables x 7 second tables (Scope into / call into / plain) x constructs", pfs),
+	run.Finish(true, fmt.Sprintf("T1: 20 constructs x 7 name forms x 13 containers x PkgLength encodings %v; T2: 41 call/field/operator/module-level programs x 13 containers, every ordered pair of constructs x 13 containers; T3: constructs x name forms x 8x8 nested containers; T4: 5 first tables x 7 second tables (Scope into / call into / plain) x constructs; T5: every ordered pair and triple of 7 scope/relocation blocks whose resolution needs several passes (also split over two tables)", pfs),
 		"a program is distinct by its ASL rendering and non-trivial if the reference accepts it as well-formed and the parsed namespace agrees with it")
 }
 
